@@ -329,7 +329,7 @@ func (e *Exec) conv(fr *Frame, in ssa.Instruction, to, from types.Type, x Value)
 				if ff.Info()&types.IsInteger != 0 {
 					t := e.term(x)
 					if !t.IsConst() {
-						panic(unsupported("symbolic rune to string"))
+						panic(unsupported("symbolic rune to string: " + describe(x) + " stack=" + e.stack(fr)))
 					}
 					return string(rune(t.Int64()))
 				}
